@@ -310,6 +310,45 @@ func famSesWtq(t *testing.T, r *Rec) {
 		}
 		monitorSession(r, g, outs)
 	}
+	// one pre-encoded frame handed to several sends (what a broadcast does): every write of it puts the same bytes on the wire
+	{
+		g := &sesGen{r: r, I: 25000, T: 20000, rt: true}
+		g.add(fmt.Sprintf(wtqCfg, 60000))
+		ss := &gSess{ord: 0, transport: "webtransport", proto: 4, conn: 0, poll: -1, hsReq: -1, reqs: map[int]string{}}
+		g.nconn = 1
+		g.sess = append(g.sess, ss)
+		g.add("ses hs webtransport 4 0 -")
+		pre := append([]byte("4"), []byte("shared frame")...)
+		for k := 0; k < 3; k++ {
+			m := rmsg{"t", []byte("shared frame")}
+			ss.sent = append(ss.sent, m)
+			g.add(fmt.Sprintf("ses send s0 t %s 0 0 t%s", hx(m.data), hx(pre)))
+		}
+		g.add("ses obs")
+		q := toSesq(g.lines)
+		if outs, ok := sesqStable(t, r, q); ok {
+			r.scenarios++
+			r.Cover("wtq/shared-pre-encoded-frame")
+			got := 0
+			for i, l := range q {
+				r.Op(l, outs[i])
+				if outs[i] == "-" || outs[i] == "ok" {
+					continue
+				}
+				for _, frs := range parseObs(outs[i]).frames {
+					for _, fr := range frs {
+						if string(fr.data) == string(pre) {
+							got++
+						}
+					}
+				}
+			}
+			if got != 3 {
+				r.Violate("C13", "C13/prepared-message/written-several-times", fmt.Sprintf("a pre-encoded frame written three times reached the peer intact %d times", got), q)
+			}
+			monitorSession(r, g, outs)
+		}
+	}
 	n := 5
 	if r.thorough() {
 		n = 60
